@@ -17,7 +17,9 @@ Record st := { lastp : list (key * list Z); resp : list key (* (endpoint that se
 (** frames of kind [j] (stats index of tx; rx is j+1) *)
 Definition le_tx (rxp txp : list Z) (j : nat) : bool := sf rxp (j + 1) <=? sf txp j.
 
-Definition incarnations (s : st) (k : key) : nat := length (filter (key_eqb k) (born s)).
+(** later incarnations of a pair (opened by a replayed or delayed Initial) carry index + 1000 * n *)
+Definition incarnations (s : st) (k : key) : nat :=
+  length (filter (fun b => (fst b =? fst k) && ((snd b) mod 1000 =? (snd k) mod 1000)) (born s)).
 
 (** compared only where both sides had a single incarnation (a replayed Initial may open a
     second, unrelated attempt under the same pair index) *)
